@@ -12,7 +12,7 @@ const SINGLE_SHAPES: [(Shape, bool); 6] = [
     (Shape::Block, false),
     (Shape::BlockB2b, true),
     (Shape::BlockInout, true),
-    (Shape::BlockInout, false),
+    (Shape::BackendBlockInplace, false),
     (Shape::BackendBlock, true),
     (Shape::Blocks, false),
 ];
@@ -21,8 +21,8 @@ const BATCH_SHAPES: [(Shape, bool); 6] = [
     (Shape::BlocksB2b, true),
     (Shape::BlocksInout, true),
     (Shape::BackendPar, false),
-    (Shape::BackendPar, true),
-    (Shape::BlocksInout, false),
+    (Shape::BackendParInplace, false),
+    (Shape::BackendBlockInplace, true),
 ];
 
 pub fn run_shape(inst: &Inst, encrypt: bool, shape: (Shape, bool), data: &[u8]) -> Vec<u8> {
@@ -91,6 +91,75 @@ fn evp_check(rep: &mut Report, e: &Entry, id: &str, inst: &Inst, key: &[u8], dat
     }
 }
 
+/// Second foreign implementation: libgcrypt (IDEA, Twofish, Serpent, GOST 28147-89 by OID, and
+/// overlap with libcrypto). GOST: libgcrypt uses little-endian words, Magma big-endian: each key
+/// word is byte-swapped and each block reversed on the way in and out.
+fn gcry_check(rep: &mut Report, e: &Entry, id: &str, inst: &Inst, key: &[u8], data: &[u8]) {
+    use ossl::gcry as G;
+    let mut k = key.to_vec();
+    let mut oid: Option<&str> = None;
+    let algo = match (e.family, key.len()) {
+        ("aes", 16) => G::AES128,
+        ("aes", 24) => G::AES192,
+        ("aes", 32) => G::AES256,
+        ("camellia", 16) => G::CAMELLIA128,
+        ("camellia", 24) => G::CAMELLIA192,
+        ("camellia", 32) => G::CAMELLIA256,
+        ("sm4", 16) => G::SM4,
+        ("des", 8) => G::DES,
+        ("tdes-ede3", 24) => G::TDES,
+        ("tdes-ede2", 16) => {
+            k.extend_from_slice(&key[..8]);
+            G::TDES
+        }
+        ("serpent", 16) => G::SERPENT128,
+        ("serpent", 24) => G::SERPENT192,
+        ("serpent", 32) => G::SERPENT256,
+        ("twofish", 16) => G::TWOFISH128,
+        ("twofish", 32) => G::TWOFISH,
+        ("idea", 16) => G::IDEA,
+        ("cast5", 16) => G::CAST5,
+        ("blowfish", 16) => G::BLOWFISH,
+        ("gost89", 32) => {
+            oid = Some(match e.name.as_str() {
+                "magma::Magma" => "1.2.643.7.1.2.5.1.1",
+                // the crate's "Test" and "CryptoProD" tables are the GOST R 34.11-94 parameter sets
+                "magma::Gost89Test" => "1.2.643.2.2.30.0",
+                "magma::Gost89CryptoProA" => "1.2.643.2.2.31.1",
+                "magma::Gost89CryptoProB" => "1.2.643.2.2.31.2",
+                "magma::Gost89CryptoProC" => "1.2.643.2.2.31.3",
+                "magma::Gost89CryptoProD" => "1.2.643.2.2.30.1",
+                _ => return,
+            });
+            k = key.chunks(4).flat_map(|w| w.iter().rev().cloned().collect::<Vec<u8>>()).collect();
+            G::GOST28147
+        }
+        _ => return,
+    };
+    let gost = e.family == "gost89";
+    let conv = |d: &[u8]| -> Vec<u8> { if gost { d.chunks(8).flat_map(|b| b.iter().rev().cloned().collect::<Vec<u8>>()).collect() } else { d.to_vec() } };
+    for encrypt in [true, false] {
+        let want = match G::ecb(algo, &k, encrypt, &conv(data), oid) {
+            Some(w) => conv(&w),
+            None => {
+                rep.count("libgcrypt_unavailable", 1);
+                return;
+            }
+        };
+        let mut got = data.to_vec();
+        inst.run(encrypt, Shape::Blocks, None, &mut got);
+        rep.eval_only(1);
+        rep.count("libgcrypt_comparisons", 1);
+        rep.bump(id, "libgcrypt", 1);
+        if got != want {
+            rep.violation(
+                format!("kat|{}|{}!=libgcrypt|keylen={}", id, if encrypt { "encrypt" } else { "decrypt" }, key.len()),
+                detail(id, key, data, &want, &got, &format!("vs libgcrypt algo {} {}", algo, oid.unwrap_or(""))),
+            );
+        }
+    }
+}
+
 pub fn run(ctx: &Ctx) -> Report {
     run_selected(ctx, "kat", |_| true, true)
 }
@@ -99,7 +168,7 @@ pub fn run(ctx: &Ctx) -> Report {
 /// combined, converted by value / by reference, cloned, sources dropped before use) and the
 /// clone of every other Clone type must compute the reference function for the key.
 pub fn run_convert(ctx: &Ctx) -> Report {
-    run_selected(ctx, "convert", |e| e.family == "aes" || e.family == "kuznyechik" || e.route == "clone", false)
+    run_selected(ctx, "convert", |e| e.family == "aes" || e.family == "kuznyechik" || e.route == "clone" || e.route == "clone_from", false)
 }
 
 fn run_selected(ctx: &Ctx, name: &str, select: fn(&Entry) -> bool, extras: bool) -> Report {
@@ -107,7 +176,9 @@ fn run_selected(ctx: &Ctx, name: &str, select: fn(&Entry) -> bool, extras: bool)
     let es = entries();
     let nkeys = ctx.budget(2000, 30_000, 2);
     let have_ossl = ossl::available();
+    let have_gcry = ossl::gcry::available();
     rep.extra.insert("libcrypto".into(), J::B(have_ossl));
+    rep.extra.insert("libgcrypt".into(), J::B(have_gcry));
     for e in es.iter().filter(|e| ctx.wants(e) && select(e)) {
         let id = e.id();
         let mut rng = ctx.rng(&format!("kat:{}", id));
@@ -179,6 +250,9 @@ fn run_selected(ctx: &Ctx, name: &str, select: fn(&Entry) -> bool, extras: bool)
             }
             if have_ossl && i % 2 == 0 {
                 evp_check(&mut rep, e, &id, &inst, &key, &data);
+            }
+            if have_gcry && i % 2 == 1 {
+                gcry_check(&mut rep, e, &id, &inst, &key, &data);
             }
         }
         if no_ref > 0 {
@@ -428,18 +502,18 @@ fn relations(ctx: &Ctx, rep: &mut Report) {
         if crate::bundled_sboxes::TC26 != refmodels::gost89::TC26 {
             rep.inconclusive.push("frozen Tc26 table disagrees with the reference model's transcription".into());
         }
-        for (alias, sname, table) in crate::registry::bundled_tables() {
+        for (alias, published, sname, table) in crate::registry::bundled_tables() {
             rep.case(case_hash(alias, sname.as_bytes(), &[], 70), false);
-            match crate::bundled_sboxes::frozen(sname) {
+            match crate::bundled_sboxes::frozen(published) {
                 Some(f) if *f == table => {}
                 Some(f) => {
                     let (r, c) = (0..8).flat_map(|r| (0..16).map(move |c| (r, c))).find(|(r, c)| f[*r][*c] != table[*r][*c]).unwrap_or((0, 0));
                     rep.violation(
-                        format!("kat|{}|bundled S-box set {} differs from the published table", alias, sname),
-                        J::obj(vec![("type", J::s(alias)), ("row", J::I(r as i64)), ("column", J::I(c as i64)), ("published", J::I(f[r][c] as i64)), ("crate", J::I(table[r][c] as i64))]),
+                        format!("kat|{}|bundled S-box set differs from the published {} table", alias, published),
+                        J::obj(vec![("type", J::s(alias)), ("resolves_to", J::s(sname)), ("row", J::I(r as i64)), ("column", J::I(c as i64)), ("published", J::I(f[r][c] as i64)), ("crate", J::I(table[r][c] as i64))]),
                     );
                 }
-                None => rep.inconclusive.push(format!("no frozen table for bundled set {}", sname)),
+                None => rep.inconclusive.push(format!("no frozen table for bundled set {}", published)),
             }
         }
     }
